@@ -858,6 +858,7 @@ def judge_obs(ctx, runs, what):
                            refused_at=at, observed=["%s%s%s" % (e["k"], ":%d" % e["t"] if e["t"] else "",
                                                                 "#%d" % e["n"] if e["k"] == "write" else "")
                                                     for e in rec["evs"][:at]][-25:]))
+    ctx.extra["observation_sequences_judged_by_AudioObs"] = ctx.extra.get("observation_sequences_judged_by_AudioObs", 0) + len(recs)
     ctx.log("%s: %d observation sequences judged by AudioObs, %d refused" % (what, len(recs), len(bad)))
 
 
